@@ -1,7 +1,9 @@
 --------------------------- MODULE FieldOpsTrace ---------------------------
 (* C12, code -> spec.  Every record of the trace file is one observation of *)
 (* the real operators:                                                      *)
-(*   op    "grad" | "div" | "curl"                                          *)
+(*   op    "grad" | "div" | "curl", or a composition of two operators of    *)
+(*         the library applied one after the other: "divgrad", "curlgrad",  *)
+(*         "curlcurl", "divcurl", "graddiv"                                 *)
 (*   comps the field as the list of components that was GIVEN to the        *)
 (*         library (0..3 for vector fields, 1 for a scalar field), each the *)
 (*         term list << <<i,j,k>>, <<n,d>> >>* of its Cartesian polynomial  *)
@@ -38,15 +40,21 @@ Expected(r) ==
   CASE r.op = "grad" -> VEval(Grad(CompsOf(r)[1]), PtOf(r.pt))
     [] r.op = "div"  -> <<PEval(Div(Pad(CompsOf(r))), PtOf(r.pt))>>
     [] r.op = "curl" -> VEval(Curl(Pad(CompsOf(r))), PtOf(r.pt))
+    [] r.op = "divgrad"  -> <<PEval(Lap(CompsOf(r)[1]), PtOf(r.pt))>>
+    [] r.op = "curlgrad" -> VEval(Curl(Grad(CompsOf(r)[1])), PtOf(r.pt))
+    [] r.op = "curlcurl" -> VEval(Curl(Curl(Pad(CompsOf(r)))), PtOf(r.pt))
+    [] r.op = "divcurl"  -> <<PEval(Div(Curl(Pad(CompsOf(r)))), PtOf(r.pt))>>
+    [] r.op = "graddiv"  -> VEval(Grad(Div(Pad(CompsOf(r)))), PtOf(r.pt))
 
 Observed(r) == [i \in 1..Len(r.val) |-> RatOf(r.val[i])]
 
-Accepts(r) == /\ r.op \in {"grad", "div", "curl"}
+ScalarOps == {"grad", "divgrad", "curlgrad"}
+Accepts(r) == /\ r.op \in {"grad", "div", "curl", "divgrad", "curlgrad", "curlcurl", "divcurl", "graddiv"}
               /\ Fits(r)
               /\ Observed(r) = Expected(r)
 
-KindOf(r) == IF r.op = "grad" THEN "s" ELSE "v"
-FldOf(r)  == IF r.op = "grad" THEN <<CompsOf(r)[1]>> ELSE Pad(CompsOf(r))
+KindOf(r) == IF r.op \in ScalarOps THEN "s" ELSE "v"
+FldOf(r)  == IF r.op \in ScalarOps THEN <<CompsOf(r)[1]>> ELSE Pad(CompsOf(r))
 
 TInit == /\ l = 1
          /\ kind = KindOf(Trace[1]) /\ fld = FldOf(Trace[1]) /\ terms = <<>>
